@@ -49,7 +49,7 @@ func VH_C07_gts_strings() {
 	vObserve("k", k)
 }
 
-//verif:harness prop=C07 quick=4 thorough=8 merge=concrete timeout=1500
+//verif:harness prop=C07 quick=4 thorough=8 merge=concrete timeout=1500 steps=300000000
 //verif:bounds AsLocation on three-part templates join(P,P,P) | order(P,P,P) | complement(join(P,P,P)) | join(P,complement(P),P) (thorough: also the four-part join(P,P,P,P) with the last part one of two kinds) where every part P is one of d | d^d | d..d | <d..>d (chosen independently) and every d is a symbolic decimal digit: the parser and the reduction it runs (Join/Order: merging, absorbing, re-reducing until stable) end, without panic, for every such string
 //verif:assume termination is decided by the engine's per-path step bound (20,000,000 instructions; a path past it is replayed natively: a hang is the violation)
 func VH_C07_location_templates() {
